@@ -38,7 +38,11 @@ RULE = ("(a) Hypothesis draws conflict-free definition closures (1-6 files, 1-3 
         "must raise the matching ParserError subclass. (c) histories: 2-3 parses on ONE Parser object in one directory - first one or two "
         "closures that abort (import of a missing file, message without id, definition without fields, signal used as field type, or a "
         "conflict), then the corrected conflict-free closure or a single-conflict closure in the same files - the last parse must give the "
-        "verdict of a fresh parser (registered union / conflict class). Non-trivial = (a) a graph in which some file is reachable by >= 2 import paths or lies on "
+        "verdict of a fresh parser (registered union / conflict class). (d) user files CALLED core_defs.yaml (the name of the package's own core definition "
+        "file, which alone is exempt from the host / module id range rules): the root, an imported file beside it or one in another directory of a closure "
+        "compiled with the core definitions bears that name and holds either additional in-range host and module ids (must be accepted, registered union) or "
+        "one host id (40000, 32768, 70000, -7, 0, -1), module id (7, 9, 1, -1, -2, 100, 150, 199) or message id (10001, -1, ...) outside its range (must be "
+        "refused with RTMASyntaxError like under any other file name); enumerated over every file of the table's base closure and drawn on random graphs. Non-trivial = (a) a graph in which some file is reachable by >= 2 import paths or lies on "
         "a cycle, (b) a conflict whose two items are in different files; distinct = (a) (shape, #files, graph classes, core imported, "
         "namespaces used), (b) (kind, placement, order, spelling/position/value, core imported).")
 ASSUME = [
@@ -46,6 +50,7 @@ ASSUME = [
     "module and host id RANGE checks exist only when the core definitions are imported, so range conflicts are generated only there",
     "two identical keys in one YAML mapping are rejected by the YAML loader first: YAMLSyntaxError is accepted for a name collision inside one section of one file",
     "nothing is claimed about what a Parser object accumulates after a SUCCESSFUL parse (tests/test_parser.py relies on accumulation); histories only continue after aborted parses",
+    "the exemption of the core definitions from the host / module range rules belongs to the package's own file (pyrtma/core_defs/core_defs.yaml), not to the file NAME: a user file of that name is a user file (same reading as fix 12c0944 for the C header)",
     "duplicate module or host NAMES are outside the statement (those have their own namespaces) and are never used as the expected conflict",
     "a reserved range longer than 100 ids is a syntax matter, not a conflict, and is not generated",
     "undocumented spellings of a reservation (several ranges in one quoted string separated by comma / space / semicolon, 'a-b-c', trailing or leading text, a single id as a string, a descending range) must either be honoured in full or be refused with RTMASyntaxError; silently reserving only a part is reported",
@@ -202,8 +207,14 @@ def _detail(c):
     return ", ".join(parts) or "-"
 
 
+_BASES: list = []
+
+
 def table_bases():
-    """Deterministic well-formed base closures for the enumerated table (5-file tree skeleton plus extras)."""
+    """Deterministic well-formed base closures for the enumerated table (5-file tree skeleton plus extras); built once per process,
+    never modified by their users (every transformation works on a clone)."""
+    if _BASES:
+        return _BASES[0]
     bases = []
     for seed, kw in ((11, dict(import_coredefs=False, shape="tree")), (12, dict(import_coredefs=False, shape="diamond")),
                      (13, dict(import_coredefs=True, shape="cycle"))):
@@ -214,6 +225,7 @@ def table_bases():
         else:
             raise HarnessError("no table base with all placements")
         bases.append(b)
+    _BASES.append(bases)
     return bases
 
 
@@ -284,6 +296,142 @@ def twin_table(res: Result):
                     check_conflict(q, res)
                 except Violation as v:
                     res.add_finding("twins/" + v.key, v.what, v.trace)
+
+
+# ----------------------------------------------------------------------------------------------
+# user files that bear the NAME of the package's core definition file
+
+
+CORE_NAME = "core_defs.yaml"
+CORE_NAME_RANGE = {"range/hostid-high": [40000, 32768], "range/hostid-low": [-7, 0], "range/modid-low": [7, -2, 9], "range/modid-mid": [150, 100, 199],
+                   "range/msgid-high": [10001], "range/msgid-low": [-1]}
+
+
+def rename_file(p: G.Program, old: str, base: str = CORE_NAME):
+    """Copy of closure p in which file ``old`` is called ``base`` (same directory); every import line that denotes it is respelled
+    accordingly.  None when the directory already has such a file or an import spelling does not end in the file's name."""
+    import posixpath
+
+    new = posixpath.join(posixpath.dirname(old), base)
+    if old == new or any(sp.path == new for sp in p.specs):
+        return None
+    oldbase = posixpath.basename(old)
+    q = p.clone()
+    for sp in q.specs:
+        if sp.path == old:
+            sp.path = new
+        for d in sp.defs:
+            if d.file == old:
+                d.file = new
+        for imp in sp.imports:
+            if imp[1] == old:
+                if not imp[0].endswith(oldbase):
+                    return None
+                spelled = imp[0][: len(imp[0]) - len(oldbase)] + base
+                if imp[0] in sp.import_comments:
+                    sp.import_comments[spelled] = sp.import_comments.pop(imp[0])
+                imp[0], imp[1] = spelled, new
+    if q.root == old:
+        q.root = new
+    if q.conflict:
+        q.conflict["files"] = [new if f == old else f for f in q.conflict["files"]]
+    q.twin_files = [new if f == old else f for f in q.twin_files]
+    q.fault = p.fault
+    q.classes |= {"core-named-file", "core-named-file/" + ("root" if q.root == new else "imported")}
+    q.rerender()
+    return q
+
+
+def _with_ids(p: G.Program, path: str, ch: G.Chooser):
+    """Copy of the conflict-free closure p with one more host id and one more module id (both in range, both unused) in file ``path``."""
+    q = p.clone()
+    hosts = {d.value for d in q.defs if d.kind == "host"} | set(G.core_defs()["host_ids"].values())
+    mods = {d.value for d in q.defs if d.kind == "module"} | set(G.core_defs()["module_ids"].values())
+    names = {d.name for d in q.defs}
+    h = next(v for v in (ch.integer(1, 32766) for _ in range(1000)) if v not in hosts)
+    m = next(v for v in (ch.choice([ch.integer(10, 99), ch.integer(201, 400)]) for _ in range(1000)) if v not in mods)
+    hn, mn = "RIG_HOST_CN", "RIG_MODULE_CN"
+    while hn in names or mn in names:
+        hn, mn = hn + "X", mn + "X"
+    q.spec(path).defs += [G.Def("host", hn, path, value=h), G.Def("module", mn, path, value=m)]
+    q.rerender()
+    return q
+
+
+def check_core_named(q: G.Program, res: Result = None):
+    trace = {"mode": "core-named", "program": q.to_json()}
+    if not q.conflict:
+        check_free(q, res, trace=trace)
+        return
+    try:
+        check_conflict(q, res, trace=trace)
+    except Violation as v:
+        if v.key.startswith(("conflict-missed/range/", "conflict-wrong-class/range/")):
+            c = q.conflict
+            raise Violation("core-named-file/" + v.key, f"a USER file called {CORE_NAME} ({c['files'][0]}, {'the root file' if c['files'][0] == q.root else 'imported by the closure'}) "
+                            f"declares {c['names'][0]} with the out-of-range id {c.get('value')} and is not refused for it; the same text under any other "
+                            f"file name is refused with RTMASyntaxError (only the package's own core definition file is exempt from the range rules): {v.what}", v.trace)
+        raise
+
+
+def core_named_case(q: G.Program, res: Result):
+    res.evaluations += 1
+    res.count("core-named-file-cases")
+    res.count("core-named-file/" + ("id-out-of-range" if q.conflict else "ids-in-range") + ("/root" if "core-named-file/root" in q.classes else "/imported"))
+    try:
+        check_core_named(q, res)
+    except Violation as v:
+        res.add_finding(v.key, v.what, v.trace)
+
+
+def core_named_table(idx: int, nshards: int, res: Result):
+    """The closure of the enumerated table (core definitions imported) with the root, an imported file in the root's directory or in
+    another directory called core_defs.yaml: accepted with additional in-range host / module ids in that file, and refused with
+    RTMASyntaxError for each out-of-range host / module / message id placed there."""
+    base = table_bases()[2]
+    files = [base.root] + [f for f in base.file_order if f != base.root]
+    k = 0
+    for fi, f in enumerate(files):
+        if rename_file(base, f) is None:
+            continue
+        for kind, values in [(None, [None])] + list(CORE_NAME_RANGE.items()):
+            for v in values:
+                k += 1
+                if k % nshards != idx:
+                    continue
+                ch = G.RandomChooser(500 + k)
+                if kind is None:
+                    q = _with_ids(base, f, ch)
+                else:
+                    q = G.inject_conflict(base, kind, "same", ch, variant={"value": v}, files=(f, f))
+                    q.options["import_coredefs"] = True
+                core_named_case(rename_file(q, f), res)
+
+
+def build_core_named(ch: G.Chooser):
+    """A drawn closure (core definitions imported) one of whose files - drawn: root, inner or leaf - is called core_defs.yaml, with
+    in-range ids only (half of them) or with one id outside its range in that file."""
+    base = G.build_program(ch, import_coredefs=True, skeleton=ch.chance(0.5), allow=ALLOW)
+    f = ch.choice(base.file_order)
+    if ch.chance(0.5):
+        q = _with_ids(base, f, ch.cos)
+    else:
+        kind = ch.choice(sorted(CORE_NAME_RANGE))
+        q = G.inject_conflict(base, kind, "same", ch, variant={"value": ch.choice(CORE_NAME_RANGE[kind] + G.RANGE_VALUES[kind])}, files=(f, f))
+        q.options["import_coredefs"] = True
+    return rename_file(q, f)
+
+
+def core_named_programs():
+    from hypothesis import strategies as st
+
+    G.core_defs()
+
+    @st.composite
+    def _cn(draw):
+        return build_core_named(G.HypChooser(draw))
+
+    return _cn()
 
 
 # ----------------------------------------------------------------------------------------------
@@ -440,7 +588,7 @@ def cli_case(p: G.Program, res: Result):
 # ----------------------------------------------------------------------------------------------
 
 
-def shard(idx: int, nshards: int, seed: int, n_free: int, n_conf: int, n_cli: int, vseed: int = 0, full: bool = True, n_hist: int = 40):
+def shard(idx: int, nshards: int, seed: int, n_free: int, n_conf: int, n_cli: int, vseed: int = 0, full: bool = True, n_hist: int = 40, n_core_named: int = 6):
     G.quiet()
     res = Result()
     run_table(idx, nshards, res, seed=vseed, full=full)
@@ -456,6 +604,9 @@ def shard(idx: int, nshards: int, seed: int, n_free: int, n_conf: int, n_cli: in
         history_table(res)
     if idx == 3:
         twin_table(res)
+    core_named_table(idx, nshards, res)
+    sb = G.ShrinkBudget(15)
+    hyp_run(sb.body(lambda q: core_named_case(q, res) if q is not None else None), sb.wrap(core_named_programs()), seed + 30, n_core_named, res)
     for k, core in enumerate((False, True)):
         sb = G.ShrinkBudget(15)
         hyp_run(sb.body(lambda st_: check_history(st_, res)), sb.wrap(histories(core)), seed + 20 + k, max(1, n_hist * (1 if core else 4) // 5), res)
@@ -480,7 +631,7 @@ def run(ctx: RunContext) -> int:
     n_free = ctx.scale(200, 2500)
     n_conf = ctx.scale(160, 2500)
     n_cli = 0 if ctx.quick else 6
-    res = run_shards(shard, [(i, 16, derive_seed(ctx.seed, i), n_free, n_conf, n_cli, ctx.seed, not ctx.quick, ctx.scale(40, 1500)) for i in range(16)])
+    res = run_shards(shard, [(i, 16, derive_seed(ctx.seed, i), n_free, n_conf, n_cli, ctx.seed, not ctx.quick, ctx.scale(40, 1500), ctx.scale(6, 300)) for i in range(16)])
     res.notes.append(f"the conflict table ({len(G.all_conflict_cases())} kind x placement x order x spelling x position x value cases) was enumerated "
                      "completely: kinds that need the core definitions with them, all others without; the latter additionally with the core "
                      + ("for every case" if not ctx.quick else "for a quarter of the cases (rotating with the seed; every case in thorough)"))
@@ -496,6 +647,8 @@ def replay_trace(trace: dict):
         check_conflict(p)
     elif trace["mode"] == "history":
         check_history([G.Program.from_json(q) for q in trace["steps"]])
+    elif trace["mode"] == "core-named":
+        check_core_named(p)
     elif trace["mode"] == "cli":
         cli_case(p, Result())
     else:
